@@ -50,4 +50,41 @@ def matHex (m : PV.Mat3 Float) : String :=
 
 def ptHex (p : PV.Pt Float) : String := fhex p.x ++ " " ++ fhex p.y
 
+/-- token cursor: a state monad over the remaining tokens -/
+abbrev P := StateT (List String) Option
+
+def tok : P String := do
+  match (← get) with
+  | [] => failure
+  | t :: ts => set ts; pure t
+
+def pF : P Float := do
+  match unfhex (← tok) with
+  | some x => pure x
+  | none => failure
+
+def pInt : P Int := do
+  match (← tok).toInt? with
+  | some x => pure x
+  | none => failure
+
+def pNat : P Nat := do
+  match (← tok).toNat? with
+  | some x => pure x
+  | none => failure
+
+def pMat : P (PV.Mat3 Float) := do
+  let a ← pF; let b ← pF; let c ← pF; let d ← pF; let e ← pF; let f ← pF; let g ← pF; let h ← pF; let i ← pF
+  pure ⟨a, b, c, d, e, f, g, h, i⟩
+
+def pList {β : Type} (p : P β) : P (List β) := do
+  let n ← pNat
+  let rec go : Nat → List β → P (List β)
+    | 0, acc => pure acc.reverse
+    | k + 1, acc => do let x ← p; go k (x :: acc)
+  go n []
+
+def matsHex (ms : List (PV.Mat3 Float)) : String :=
+  (s!"{ms.length} " ++ " ".intercalate (ms.map matHex)).trimAsciiEnd.toString
+
 end PV.Driver
